@@ -580,4 +580,28 @@ theorem decoded_names_nodup : ((iter (decoded hs loc src now)).map lower).Nodup 
 
 end decoded
 
+/-! ### observations -/
+
+theorem lookupCI_observe (probes : List Bytes) (h : Hdrs) (k : Bytes) (hc : ∃ q ∈ probes, lower q = lower k) :
+    (observe probes h).lookupCI k = some (getitem lower h k) := by
+  unfold Obs.lookupCI observe
+  simp only [List.find?_map]
+  cases hf : probes.find? ((fun p : Bytes × Option Val => lower p.1 == lower k) ∘ fun k => (k, getitem lower h k)) with
+  | none =>
+    obtain ⟨q, hq, e⟩ := hc
+    have := List.find?_eq_none.mp hf q hq
+    simp [e] at this
+  | some q =>
+    have hq : lower q = lower k := by simpa using List.find?_some hf
+    simp only [Option.map_some]
+    unfold getitem; rw [hq]
+
+theorem distinctCI_of_nodup {ks : List Bytes} (h : (ks.map lower).Nodup) : distinctCI ks = true := by
+  induction ks with
+  | nil => rfl
+  | cons k r ih =>
+    simp only [List.map_cons, List.nodup_cons] at h
+    simp only [distinctCI, Bool.and_eq_true, Bool.not_eq_true', List.contains_eq_mem, decide_eq_false_iff_not]
+    exact ⟨h.1, ih h.2⟩
+
 end Upnp.C01
